@@ -267,6 +267,12 @@ def _visitors():
         def visit_LLeaf(self, node):
             raise RuntimeError("rule raises")
 
+    class RaisesLate(ASTTransformVisitor):
+        def visit_LLeaf(self, node):
+            if node.v % 2 == 0:
+                raise RuntimeError("rule raises")
+            return node.replace(v=node.v + 100)
+
     class IncT(ASTTransformer):
         def transform(self, node):
             return node.replace(v=node.v + 100) if isinstance(node, LZ.LLeaf) else node
@@ -279,13 +285,13 @@ def _visitors():
         def transform(self, node):
             return LZ.LLeaf(v=node.v + 500, origin=node.origin) if isinstance(node, LZ.LLeaf) else node
 
-    return Inc, RemoveEven, Raises, IncT, RemoveT, FreshT
+    return Inc, RemoveEven, Raises, IncT, RemoveT, FreshT, RaisesLate
 
 
 NULLARY = ["new-leaf-1", "new-leaf-9"]
 UNARY = [
     "wrap-tuple", "wrap-optional", "wrap-required", "wrap-list", "attach", "detach", "detach_self", "replace-property", "replace-noop", "replace-bad-key", "replace-forbidden-key",
-    "replace_with-None", "duplicate", "duplicate-detached", "transform-inc", "transform-remove-even", "transform-raises", "transformer-inc", "transformer-remove", "transformer-fresh",
+    "replace_with-None", "duplicate", "duplicate-detached", "transform-inc", "transform-remove-even", "transform-raises", "transform-raises-late", "transformer-inc", "transformer-remove", "transformer-fresh",
 ]
 BINARY = ["wrap-pair", "replace_with", "replace-child", "transform-return-existing"]
 
@@ -293,7 +299,7 @@ BINARY = ["wrap-pair", "replace_with", "replace-child", "transform-return-existi
 def apply_op(op: str, r: Any, a: Any) -> Any:
     from pyoak.origin import NO_ORIGIN
 
-    Inc, RemoveEven, Raises, IncT, RemoveT, FreshT = _visitors()
+    Inc, RemoveEven, Raises, IncT, RemoveT, FreshT, RaisesLate = _visitors()
     o = NO_ORIGIN
     if op == "new-leaf-1":
         return LZ.LLeaf(v=1, origin=o)
@@ -357,6 +363,8 @@ def apply_op(op: str, r: Any, a: Any) -> Any:
         return RemoveEven().transform(r)
     if op == "transform-raises":
         return Raises().transform(r)
+    if op == "transform-raises-late":
+        return RaisesLate().transform(r)
     if op == "transform-return-existing":
         from pyoak.legacy.node import ASTTransformVisitor
 
@@ -459,6 +467,8 @@ def make_harness(K: int, which: str, first_ops: list[str] | None = None, later_o
                 if contains(a, r) or contains(r, a) or sum(1 for x in reachable([r]).values() if isinstance(x, LZ.LLeaf)) != 1:
                     e.assume(False)
             text = f"{op}({', '.join(describe_node(x, handles) for x in (r, a) if x is not None)})"
+            # for the signature: a transform behaves differently on a detached receiver (no clone is made)
+            op_sig = op + (("@detached-receiver" if r.detached else "@attached-receiver") if op.startswith("transform") and r is not None else "")
             e.note(f"forest{fno}: {' ; '.join(history)} ; then {text}")
             before = snapshot(handles + roots)
             known = reachable(handles + roots)
@@ -494,7 +504,7 @@ def make_harness(K: int, which: str, first_ops: list[str] | None = None, later_o
                 if which == "C19" and (changed or new_registered or any(reg_after.get(k) != v for k, v in reg_before.items())):
                     scenario.update(changed_observables=changed, newly_registered_ids=len(new_registered), registry_changed=any(reg_after.get(k) != v for k, v in reg_before.items()))
                     what = "+".join(changed) or "registry"
-                    e.fail(f"rejected-{op}:{outcome}{rejection_site}:changed:{what}", scenario=scenario)
+                    e.fail(f"rejected-{op_sig}:{outcome}{rejection_site}:changed:{what}", scenario=scenario)
                 if changed or new_registered:
                     e.assume(False)  # state already inconsistent by a (C19) rollback gap: stop here
                 e.count("rejected_operations")
